@@ -176,7 +176,7 @@ def differential(ctx, templates, suggestions, tag="diff"):
         f.write("package main\n\nimport (\n\t\"errors\"\n\t\"fmt\"\n\t\"math\"\n\t\"time\"\n)\n\nvar (\n\t_ = errors.New\n\t_ = math.NaN\n\t_ = time.Unix\n)\n\n")
         f.write("func call(f func() string) (out string) {\n\teffects, ctr = nil, 0\n\tdefer func() {\n\t\tif r := recover(); r != nil {\n\t\t\tout = fmt.Sprint(\"panic: \", r, \" \", fx())\n\t\t}\n\t}()\n\treturn f()\n}\n\n")
         f.write("func deref(v interface{}) string {\n\tswitch x := v.(type) {\n\tcase *int:\n\t\tif x == nil {\n\t\t\treturn \"nil\"\n\t\t}\n\t\treturn fmt.Sprint(\"&\", *x)\n\tcase *T:\n\t\tif x == nil {\n\t\t\treturn \"nil\"\n\t\t}\n\t\treturn fmt.Sprintf(\"&%+v\", *x)\n\t}\n\treturn fmt.Sprint(v)\n}\n\n")
-        f.write("var runs int\n\nfunc cmp(name string, k int, in string, a, b string) {\n\truns++\n\tif a != b {\n\t\tfmt.Printf(\"MISMATCH\\t%s\\t%d\\t%s\\t%s\\t%s\\n\", name, k, in, a, b)\n\t}\n}\n\n")
+        f.write("var runs int\n\nfunc cmpOut(name string, k int, in string, a, b string) {\n\truns++\n\tif a != b {\n\t\tfmt.Printf(\"MISMATCH\\t%s\\t%d\\t%s\\t%s\\t%s\\n\", name, k, in, a, b)\n\t}\n}\n\n")
         f.write("func main() {\n")
         for t, k, s, fixed in variants:
             indent = "\t"
@@ -192,7 +192,7 @@ def differential(ctx, templates, suggestions, tag="diff"):
                 indent += "\t"
             args = ", ".join((n + "()") if pt in MUTABLE else n for n, (_, pt) in zip(names, t.params))
             inp = "fmt.Sprint(%s)" % (", ".join(["\" %s=\", %s" % (n.rsplit("_", 1)[0], (("deref(%s())" % n) if pt in MUTABLE else n)) for n, (_, pt) in zip(names, t.params)]) or '""')
-            f.write("%scmp(\"%s\", %d, %s, call(func() string { return %s(%s) }), call(func() string { return %s__v%d(%s) }))\n"
+            f.write("%scmpOut(\"%s\", %d, %s, call(func() string { return %s(%s) }), call(func() string { return %s__v%d(%s) }))\n"
                     % (indent, t.name, k, inp, t.name, args, t.name, k, args))
             for _ in t.params:
                 indent = indent[:-1]
